@@ -33,6 +33,11 @@ def charset_never_leaks(tier, seed, only=None):
                 ok = back.tracks[0][0].name == text and back.tracks[0][2].text == text and \
                     bytes(text.encode(cs)) in data
                 detail = repr(back.tracks)
+                if ok:
+                    # the clip option only concerns data bytes of channel/sysex messages: text payloads are untouched by it
+                    back2 = mido.MidiFile(file=io.BytesIO(data), charset=cs, clip=True)
+                    ok = back2.tracks[0][0].name == text and back2.tracks[0][2].text == text
+                    detail = 'loaded with clip=True: ' + repr(back2.tracks)
             except Exception as ex:      # noqa  (a file just saved must load again)
                 ok, detail = False, 'loading the file just saved raised %r' % ex
             if not ok or MM._charset != 'latin1':
